@@ -15,10 +15,33 @@ SPECDIR = os.path.join(vlib.ROOT, "specs", "Resolver")
 def gen_histories(ctx, module, cfg, out, workers=8, simulate=None, depth=None, timeout=600, prefix="g", cap=None):
     """Run a generator module (EXTENDS EnvGen) and write one history per line to `out`.
     Simulation runs are time-boxed (TLC is stopped after `timeout`) and capped at `cap` histories by a seeded sample."""
-    r = vlib.tlc(os.path.join(SPECDIR, module), cfg, workers=workers, simulate=simulate, depth=depth,
-                 timeout=timeout, deadlock=False, seed=ctx.seed if simulate else None)
-    if r.error or (r.rc != 0 and not simulate):
-        raise vlib.MachineryError("generator %s/%s failed rc=%s\n%s" % (module, cfg, r.rc, r.out[-3000:]))
+    if simulate:
+        # Reproducible sampling: TLC's random simulation is deterministic for one worker, a fixed seed and a fixed
+        # aril; several such processes with different seeds run side by side and their outputs are concatenated
+        # in a fixed order, so the same VERIF_SEED always yields the same histories.
+        import concurrent.futures
+        par = 8
+
+        def one(i):
+            # TLC evaluates the printing invariant on every successor it generates (about 500 lines per trace):
+            # simulate/20 traces per process give a few hundred thousand histories in total
+            return vlib.tlc(os.path.join(SPECDIR, module), cfg, workers=1, simulate=max(20, simulate // 20), depth=depth,
+                            timeout=max(timeout, 900), deadlock=False, seed=ctx.seed * 100 + i, extra=["-aril", "0"], heap="3g")
+        with concurrent.futures.ThreadPoolExecutor(max_workers=par) as ex:
+            rs = list(ex.map(one, range(par)))
+        for x in rs:
+            if x.error or x.rc == 124:
+                raise vlib.MachineryError("generator %s/%s failed rc=%s\n%s" % (module, cfg, x.rc, x.out[-3000:]))
+        r = rs[0]
+        r.out = "\n".join(x.out for x in rs)
+        r.distinct = sum(x.distinct for x in rs)
+        r.generated = sum(x.generated for x in rs)
+        r.wall = max(x.wall for x in rs)
+    else:
+        r = vlib.tlc(os.path.join(SPECDIR, module), cfg, workers=workers, simulate=simulate, depth=depth,
+                     timeout=timeout, deadlock=False, seed=None)
+        if r.error or r.rc != 0:
+            raise vlib.MachineryError("generator %s/%s failed rc=%s\n%s" % (module, cfg, r.rc, r.out[-3000:]))
     seen = set()
     n = 0
     lines = r.out.splitlines()
